@@ -529,4 +529,62 @@ def config_consts(*args):
     return "\n".join(out) + "\n"
 
 
-GENERATORS = {"config_consts": config_consts, "auth_methods": auth_methods, "config_statics": config_statics, "record_codecs": record_codecs, "request_limits": request_limits}
+def serde_attrs(*files):
+    """C14 (JSON half), derive-generated impls: for every struct that derives both Serialize and Deserialize in the given
+    files, one generated obligation per field over its #[serde(..)] attributes - a field the serialiser may leave out must be
+    readable when it is missing, a field that is written must be read back, and both directions must use one name.  Purely
+    syntactic input (attributes re-read on every run); the obligations themselves are discharged by the verifier."""
+    out = ["// ==== generated on this run from the #[serde(..)] field attributes of: %s ====" % ", ".join(files),
+           "pub open spec fn omitted_field_is_optional(may_be_omitted: bool, has_default: bool, is_option: bool) -> bool { may_be_omitted ==> has_default || is_option }",
+           "pub open spec fn written_field_is_read(skip_serializing: bool, skip_deserializing: bool) -> bool { skip_deserializing ==> skip_serializing }",
+           "pub open spec fn one_name(different_names: bool) -> bool { !different_names }"]
+    n = 0
+    for rel in files:
+        text = open(os.path.join(REPO, rel)).read()
+        i = text.find("#[cfg(test)]")
+        if i >= 0:
+            text = text[:i]
+        for m in re.finditer(r"#\[derive\(([^\]]*)\)\]\s*(?:///[^\n]*\n\s*|#\[[^\]]*\]\s*)*pub struct (\w+)\s*\{", text):
+            derives = m.group(1)
+            if "Serialize" not in derives or "Deserialize" not in derives:
+                continue
+            S = m.group(2)
+            # body up to the matching brace
+            depth, k = 1, m.end()
+            while k < len(text) and depth:
+                depth += {"{": 1, "}": -1}.get(text[k], 0)
+                k += 1
+            body = text[m.end():k - 1]
+            container_default = bool(re.search(r"#\[serde\([^\]]*\bdefault\b", text[max(0, m.start() - 400):m.start()]))
+            attrs = ""
+            for ln in re.split(r"\n", body):
+                t = ln.strip()
+                if t.startswith("///") or t.startswith("//") or not t:
+                    continue
+                fm = re.match(r"pub (\w+):\s*(.*?),?\s*$", t)
+                if fm and attrs.count("(") == attrs.count(")"):
+                    f, ty = fm.group(1), fm.group(2)
+                    a = " ".join(attrs.split())
+                    skip_if = "skip_serializing_if" in a
+                    skip_ser = bool(re.search(r"\bskip_serializing\b(?!_if)", a)) or bool(re.search(r"\bskip\b(?!_)", a))
+                    skip_de = bool(re.search(r"\bskip_deserializing\b", a)) or bool(re.search(r"\bskip\b(?!_)", a))
+                    has_default = bool(re.search(r"\bdefault\b", a)) or container_default
+                    is_option = ty.replace(" ", "").startswith("Option<")
+                    rn = re.search(r"rename\s*\(\s*serialize\s*=\s*\"([^\"]*)\"\s*,\s*deserialize\s*=\s*\"([^\"]*)\"", a)
+                    diff = bool(rn and rn.group(1) != rn.group(2))
+                    b = lambda x: "true" if x else "false"
+                    out.append("// %s.%s: %s   [%s]" % (S, f, ty, a or "no serde attribute"))
+                    out.append("pub proof fn prop_serde_field_%s_%s()\n    ensures omitted_field_is_optional(%s, %s, %s), written_field_is_read(%s, %s), one_name(%s),\n{}" % (
+                        S, f, b(skip_if or (skip_ser and not skip_de)), b(has_default), b(is_option), b(skip_ser), b(skip_de), b(diff)))
+                    n += 1
+                    attrs = ""
+                elif t.startswith("#[") or attrs.count("(") != attrs.count(")"):
+                    attrs += " " + t
+                else:
+                    attrs = ""
+    if n == 0:
+        raise GenError("no serde-derived struct field found in %s" % (files,))
+    return "\n".join(out) + "\n"
+
+
+GENERATORS = {"serde_attrs": serde_attrs, "config_consts": config_consts, "auth_methods": auth_methods, "config_statics": config_statics, "record_codecs": record_codecs, "request_limits": request_limits}
